@@ -113,6 +113,19 @@ def run(repo: Repo, L: Ledger, tier: str):
             else:
                 srcs = [actual]
             ok = bool(srcs) and all(norm(s) == "self.default_gap" for s in srcs)
+            if not ok:
+                # refuted by a source that is recognisably not the configured gap: None, or a Gap(...) made on the spot with other
+                # constants; a parameter, a helper's result, anything else is not decided here
+                def _bad_src(s_):
+                    if isinstance(s_, ast.Constant) and s_.value is None:
+                        return True
+                    if isinstance(s_, ast.Call) and dotted(s_.func) == "Gap":
+                        vals_ = [try_fold(a_, default=NotImplemented) for a_ in s_.args]
+                        return bool(vals_) and NotImplemented not in vals_ and vals_ != [200, "scaffold"]
+                    return False
+
+                if not any(_bad_src(s_) for s_ in srcs):
+                    raise AnalysisError(f"C07.R1 {inst}: the gap argument '{norm(actual)}' comes from {[norm(s)[:40] for s in srcs]}: whether that is the configured join gap is not decided (a parameter, a helper's result or another attribute)")
             L.check(ok, "R1", inst, "gap argument is the configured join gap", f"gap argument '{norm(actual)}' is defined as {[norm(s) for s in srcs]}, not the configured join gap self.default_gap", f.loc(c))
     L.floor("R1", "append_scaffold call sites", n_sites, 1)
 
@@ -464,7 +477,8 @@ def run(repo: Repo, L: Ledger, tier: str):
                 ks = classify(a)
                 if ks is None:
                     # refuted only by a value that is recognisably something else: another input row, a freshly made gap
-                    other_row = isinstance(a, ast.Subscript) and _rows_receiver(a.value)
+                    cands_ = [a] if not isinstance(a, ast.Name) else list(local_defs(addm, a.id))
+                    other_row = bool(cands_) and all(isinstance(d_, ast.Subscript) and _rows_receiver(d_.value) and not _input_row_before(d_) for d_ in cands_)
                     fresh = isinstance(a, ast.Call) and dotted(a.func) == "Gap"
                     if not (other_row or fresh):
                         raise AnalysisError(f"{addm.short}: where the inserted gap '{norm(a)[:40]}' comes from is not understood (neither the row before the fragment nor the configured join gap, directly or through a local)")
